@@ -15,7 +15,8 @@ CLAIMS = {
             "§3 R-EQFUNCTOR; §4 C38"),
     "C40": ("def-use analysis of the HASH_TYPE_ID_STYLE arm of write_context::get_id_for_type",
             "a hash-style id is the formatted fnv_hash of the type's internal pretty representation, only "
-            "incremented while probing a per-writer member set; no counter, address or static state flows into it",
+            "incremented while probing a per-writer member set; no counter, address or static state flows into it; "
+            "R-IDUNIQ: the value formatted into the id was successfully inserted into that set on every path",
             "ids of colliding types depend on emission order (the property's own proviso)",
             "§3 R-HASHID; §4 C40"),
     "C42": ("compile-fail witnesses (type-level encoding: private constructor + friend) and AST shape obligations on "
@@ -94,7 +95,8 @@ CLAIMS = {
             "interpretation of abidiff with the verdict predicates as symbolic atoms",
             "a category the harmful categoriser assigns is never in the default-off mask; on every path of abidiff's "
             "main where has_net_changes()/has_incompatible_changes() hold the exit value carries CHANGE/INCOMPATIBLE; "
-            "the removal counters are disjuncts of has_incompatible_changes",
+            "the removal counters are disjuncts of has_incompatible_changes; R-VERLOOKUP: the symbol re-lookup that "
+            "can cancel a removal returns a symbol only for the requested version (or when none was requested)",
             "that a given source edit produces a diff node with the harmful category (diff engine, runtime)",
             "§3 R-CATPART, R-STATUS; §4 C05"),
     "C07": ("constant evaluation of enum masks, categoriser -> mask table agreement, option-guard extraction (AST)",
@@ -106,7 +108,9 @@ CLAIMS = {
     "C10": ("table extraction (net counter -> counters -> containers fed, section loop -> skip predicate -> "
             "suppressed set) and ordering checks over the reporters' AST",
             "each net counter is num - filtered of one container and its suppressed twin; each section skips through "
-            "the predicate that looks up that very set; the summary precedes every section and is not gated by --stat",
+            "the predicate that looks up that very set; the summary precedes every section and is not gated by --stat; "
+            "R-CATORDER: counters of filtered-out changes are computed after every category-writing pass; R-OPTGATE as "
+            "for C08",
             "arithmetic on the actual counts is runtime; it follows from same-container/same-filter",
             "§3 R-NETPAIR, R-SECTION, R-STATFIRST; §4 C10"),
     "C23": ("must-pass-through dataflow (change_kind test before any non-false return) + application-table "
@@ -120,7 +124,8 @@ CLAIMS = {
             "comparison between writer and reader",
             "every element / attribute name the writer emits is asked for by the reader and vice versa; every "
             "enum->string switch of the writer is inverted by the reader's string->enum chain (collapses listed); the "
-            "element kinds that may omit size-in-bits are exactly those the reader defaults to the address size",
+            "element kinds that may omit size-in-bits are exactly those the reader defaults to the address size; "
+            "R-IDUNIQ: a hash-style type id is inserted into the used-hash set before it is handed out",
             "that attribute values are computed and re-interpreted consistently (sizes, offsets, ids) is runtime; the "
             "comparison is global over names, not per element",
             "§3 R-VOCAB, R-ENUMTAB, R-DEFSZ; §4 C02"),
@@ -143,7 +148,9 @@ CLAIMS = {
             "recognition",
             "in the ABIXML reader and the tools that call it: nullable results are checked before every dereference, "
             "constant subscripts are size-guarded, and every assertion / abort that depends on document content "
-            "without a dominating check is either absent or a recorded, replayed finding (25 today)",
+            "without a dominating check is either absent or a recorded, replayed finding (26 today); R-VFNCLASS: "
+            "virtual-ness is only set on methods whose scope has static type class_decl_sptr (typed provenance through "
+            "helpers)",
             "general memory safety beyond these three fault classes; nine assertion sites are listed as undecided "
             "(sa/tables/c33_tables.json)",
             "§3 R-NULLABLE, R-IDX, R-INASSERT; §4 C33"),
@@ -176,7 +183,8 @@ CLAIMS = {
             "of id references with record calls",
             "no string read from the IR reaches the XML stream without the sanitiser of its context (attribute / "
             "comment), the sanitiser covers < > & ' \", and every type-id written as a reference is followed on every "
-            "path by record_type_as_referenced (definitions by record_*_as_emitted)",
+            "path by record_type_as_referenced - before or after, directly or through an id helper that is summarised "
+            "from its CFG - (definitions by record_*_as_emitted); R-IDUNIQ: hash-style ids are registered as used",
             "that elf-symbol-id references name symbols present in the symbol tables (runtime set relation); control "
             "characters are a recorded finding",
             "§3 R-ESC, R-IDREF; §4 C04"),
@@ -184,7 +192,8 @@ CLAIMS = {
             "interprocedural summaries) + sibling-agreement of counter atoms (AST)",
             "every value that can reach the exit status of abidiff/abicompat/abipkgdiff uses only documented bits with "
             "INCOMPATIBLE=>CHANGE and USAGE=>ERROR (lemmas L1/L1' read off the verdict predicates), and each reporter's "
-            "net-change predicate tests exactly the counters emit_diff_stats prints on its branch",
+            "net-change predicate tests exactly the counters emit_diff_stats prints on its branch; R-OPTGATE: every "
+            "report section and the filtered-out counter behind the verdict depend on the same show_* options",
             "that the counters themselves are computed correctly at run time; L1 for the leaf reporter's virtual-offset "
             "disjunct is an assumption (sa/tables/atoms_exceptions.json)",
             "§3 R-STATUS, R-ATOMS; §4 C08"),
